@@ -24,7 +24,7 @@ RULE = ('programs: family K (Conv1d k in 1..12, d in 1..2, s in 1..2, BN on/off,
         'shape, returns the original output shape, exported sizes == summary(); non-trivial = a configuration in which at least one mask '
         'vector is entirely at a "pruned" value')
 ASSUMPTIONS = ['receptive-field / dilation parameters are driven only on Conv1d layers padded as the PIT README prescribes (ConstantPad1d + valid, or padding="same")',
-               'only non-frozen maskers are driven (frozen ones are not reachable by an optimizer; see C11)',
+               'feature-mask parameters of frozen maskers ARE driven in the uniform-value sweep (they must have no effect); frozen RF / dilation parameters are not',
                'NaN / inf parameter values are not generated']
 
 
@@ -72,7 +72,9 @@ def _raw_handles(pit):
     fms, tms, seen = [], [], set()
     for name, layer in D.pit_layers(pit):
         fm = layer.out_features_masker
-        if id(fm) not in seen and type(fm) is PITFeaturesMasker:
+        # frozen FEATURES maskers are driven as well: their alpha is an architectural parameter the model reports, and whatever
+        # value it takes the layer must keep its full width (RF / dilation parameters of frozen maskers are not driven)
+        if id(fm) not in seen and isinstance(fm, PITFeaturesMasker):
             seen.add(id(fm))
             fms.append(fm)
         if isinstance(layer, PITConv1d) and not isinstance(layer.timestep_masker, PITFrozenTimestepMasker):
